@@ -23,7 +23,17 @@ def _load(pid):
     return importlib.import_module("bvf.checks.%s" % pid.lower())
 
 
-def _finish(mod, run):
+def _finish(mod, run, replay=False):
+    if replay:
+        # a replay re-executes one recorded case: exit 1 if it reproduces, else 0; evidence is not rewritten
+        n = int(run.counters.get("violations", 0))
+        for v in run.violations[:3]:
+            print("REPRODUCED property=%s what=%s" % (run.pid, v["what"]))
+        for k, slot in run.known_hits.items():
+            print("REPRODUCED(known finding) property=%s mechanism=%s" % (run.pid, k))
+        if not n and not run.known_hits:
+            print("replay of %s did not reproduce a violation on this tree" % run.pid)
+        return 1 if n else 0
     ex = getattr(mod, "EXHAUSTIVE", None)
     if isinstance(ex, dict):
         ex = ex.get(run.tier)
@@ -61,7 +71,7 @@ def main(argv=None):
             print(json.dumps(rec, indent=1))
             return 2
         mod.replay(run, rec)
-        return _finish(mod, run)
+        return _finish(mod, run, replay=True)
 
     if args.shard:
         i, n = (int(x) for x in args.shard.split("/"))
